@@ -348,6 +348,15 @@ def run_check(pid, tier, seed, t0, update_baseline=False):
         o = dict(name=v["name"], kind="bounded", status="failed", backend="native", line=0, path="-")
         report(o, dict(qual=b["name"], file=None), True, v.get("text", ""), pyinputs=v.get("inputs"))
 
+    # every finding listed for this property gets its line on every run, also when this run's sample did not hit it
+    observed = len(printed)
+    for k in known:
+        key = k.get("id") or k.get("obligation")
+        if k.get("property") == pid and key not in printed:
+            printed.add(key)
+            print("KNOWN-FINDING: property=%s %s [listed; not hit by this run's sample]"
+                  % (pid, k.get("what", k.get("obligation"))))
+
     for q, why in undecided:
         print("UNDECIDED %s: %s" % (q, (why or "")[:300]))
     for q, why in crashes:
@@ -376,7 +385,8 @@ def run_check(pid, tier, seed, t0, update_baseline=False):
                functions_under_contract=funcs, inlined_callees=sorted(inlined),
                dropped_by_extraction=sorted(dropped), unverified_remainder=list(spec.remainder),
                bounded_standins=bounded,
-               undecided=[u[0] for u in undecided], known_findings_hit=len(printed))
+               undecided=[u[0] for u in undecided], known_findings_hit=observed,
+               known_findings_listed=len(printed))
     if level != "proof":
         ev = sum(b.get("evaluations", 0) for b in bounded)
         dn = sum(b.get("distinct_nontrivial", 0) for b in bounded)
